@@ -42,14 +42,16 @@ _cache = {}
 
 
 def run_rule(rule, facts, tier):
-    key = (rule, id(facts))
-    if key in _cache:
-        return _cache[key]
+    # results are cached on the facts object itself (not by id(): the self-test runners analyse many trees in threads)
+    holder = facts['default']
+    cache = holder.__dict__.setdefault('_rule_cache', {})
+    if rule in cache:
+        return cache[rule]
     mod, fn, needs = RULES[rule]
     m = importlib.import_module('qlint.' + mod)
     f = getattr(m, fn)
     res = f(facts['default']) if needs == 'default' else f(facts)
-    _cache[key] = res
+    cache[rule] = res
     return res
 
 
